@@ -59,7 +59,72 @@ func memberGuarded(p *Prog, fn *ssa.Function, ins ssa.Instruction, val ssa.Value
 			}
 		}
 	})
+	if ok {
+		return true
+	}
+	// the membership test lives in a predicate method (isMember(id)): the call's result guards ins
+	allInstrs(fn, func(x ssa.Instruction) {
+		c, isC := x.(*ssa.Call)
+		if !isC {
+			return
+		}
+		cf := c.Call.StaticCallee()
+		if cf == nil || !p.Analysed(cf) || cf.Blocks == nil {
+			return
+		}
+		idx, isPred := memberPredicate(p, cf)
+		if !isPred || idx >= len(c.Call.Args) {
+			return
+		}
+		if a := c.Call.Args[idx]; canonVal(a) != target && !sameLeaves(p, a, val) {
+			return
+		}
+		if condTrueDominates(fn, c, ins) {
+			ok = true
+		}
+	})
 	return ok
+}
+
+// memberPredicate: cf returns, on every path, the found flag of a comma-ok lookup of one of its parameters in the
+// member map and nothing else; the index of that parameter.
+func memberPredicate(p *Prog, cf *ssa.Function) (int, bool) {
+	if cf.Signature.Results().Len() != 1 {
+		return 0, false
+	}
+	idx, n := -1, 0
+	bad := false
+	allInstrs(cf, func(x ssa.Instruction) {
+		ret, isRet := x.(*ssa.Return)
+		if !isRet || len(ret.Results) != 1 {
+			return
+		}
+		n++
+		ex, isEx := canonVal(ret.Results[0]).(*ssa.Extract)
+		if !isEx || ex.Index != 1 {
+			bad = true
+			return
+		}
+		lk, isL := ex.Tuple.(*ssa.Lookup)
+		if !isL || !lk.CommaOk || !hasLeafPrefix(p.Leaves(lk.X, provOpts{}), "field:"+muPkg+".Transport.transportMap") {
+			bad = true
+			return
+		}
+		prm, isP := canonVal(lk.Index).(*ssa.Parameter)
+		if !isP {
+			bad = true
+			return
+		}
+		for i, q := range cf.Params {
+			if q == prm {
+				if idx >= 0 && idx != i {
+					bad = true
+				}
+				idx = i
+			}
+		}
+	})
+	return idx, n > 0 && !bad && idx >= 0
 }
 
 // memberGuardedDeep: as memberGuarded; when the value is a parameter of an unexported helper (selectTransport(id)),
